@@ -261,6 +261,17 @@ pub fn is_valid_identifier(name: &str) -> bool {
 }
 
 fn name_needs_quoting(name: &str) -> bool {
+    // The lexer reads an unquoted sheet name as an identifier: it must start with a letter or
+    // '_' and continue with alphanumeric characters, '_' or '.'. Anything else needs quotes.
+    let mut rest = name.chars();
+    match rest.next() {
+        None => return false,
+        Some(first) if first.is_alphabetic() || first == '_' => {}
+        _ => return true,
+    }
+    if !rest.all(|c| c.is_alphanumeric() || c == '_' || c == '.') {
+        return true;
+    }
     let chars = name.chars();
     // it contains any of these characters: ()'$,;-+{} or space
     for (i, char) in chars.enumerate() {
